@@ -19,6 +19,7 @@ Inductive actor := ALoop | AOther.   (* the current event loop itself, or any ot
 
 Inductive wev :=
 | KPend (a : actor) (delta_up : bool) (k : nat) (n : bool)  (* pending := pending + k / - k (enqueue, dequeue, purge) *)
+| KForeign (k : nat) (n : bool)                            (* pending += k by a foreign producer / content already in a store being bound *)
 | KCur (a : actor) (up : bool) (n : bool)                   (* curProcessing +1 / -1 *)
 | KStatus (v : nat) (n : bool)                              (* status := v *)
 | KConc (c : nat) (n : bool)                                (* concurrency := c *)
@@ -69,16 +70,30 @@ Definition upd_inputs (s : kstate) (st' cur' conc' pend' : nat) (a : actor) (n :
 Definition kstep (s : kstate) (e : wev) : option kstate :=
   match e with
   | KPend a up k n =>
+      (* structure of the code: whoever adds work notifies (Add / AddAll / persistent Add after a
+         successful Enqueue; a foreign producer through the adapter's notification) *)
+      if up && negb n then None else
       if up then upd_inputs s (kst s) (kcur s) (kconc s) (kpend s + k) a n
       else if Nat.leb k (kpend s) then upd_inputs s (kst s) (kcur s) (kconc s) (kpend s - k) a n else None
+  | KForeign k n => upd_inputs s (kst s) (kcur s) (kconc s) (kpend s + k) AOther n
   | KCur a up n =>
       if up then upd_inputs s (kst s) (S (kcur s)) (kconc s) (kpend s) a n
       else match kcur s with
-           | S c => upd_inputs s (kst s) c (kconc s) (kpend s) a n
+           | S c =>
+               (* structure of the code: the completion path (a pool goroutine releasing its slot)
+                  always notifies; only the event loop itself returns a reservation silently *)
+               match a with
+               | AOther => if n then upd_inputs s (kst s) c (kconc s) (kpend s) a n else None
+               | ALoop => upd_inputs s (kst s) c (kconc s) (kpend s) a n
+               end
            | 0 => None
            end
-  | KStatus v n => upd_inputs s v (kcur s) (kconc s) (kpend s) AOther n
-  | KConc c n => upd_inputs s (kst s) (kcur s) c (kpend s) AOther n
+  | KStatus v n =>
+      (* Resume / start store Running and notify *)
+      if Nat.eqb v 1 && negb n then None else upd_inputs s v (kcur s) (kconc s) (kpend s) AOther n
+  | KConc c n =>
+      (* TunePool notifies when it raises the limit *)
+      if Nat.ltb (kconc s) c && negb n then None else upd_inputs s (kst s) (kcur s) c (kpend s) AOther n
   | KNotify =>
       match kowed s with
       | S o => Some (mkK (kst s) (kcur s) (kconc s) (kpend s) (ksig s || kopen s) (kopen s) o (kparked s) (kstale s) (kwasfalse s))
